@@ -15,9 +15,67 @@ import math
 import os
 from fractions import Fraction
 
+import vlib
 from vlib import cz, czl, cnat, cnatl, cbool, clist, copt, cq, cfloat, guarded
 
 INF = float("inf")
+GEN = os.path.join(vlib.COQ, "Gen", "C05_gen.v")
+
+
+def regen(repo=None):
+    """Tie (T): regenerate coq/Gen/C05_gen.v from the working tree's deap/tools/emo.py (harness/c05_py2coq.py).
+    Returns (ok, message, status) -- status: function -> None (translated) | Refuse (placeholder = the hand model);
+    ok is False when nothing could be translated."""
+    import c05_py2coq
+    repo = repo or vlib.REPO
+    try:
+        txt, status = c05_py2coq.translate_repo(repo)
+    except Exception as e:  # noqa  (a translator crash is a refusal of everything: fail closed)
+        r = c05_py2coq.Refuse("Module", "translator error %s: %s" % (type(e).__name__, e))
+        txt, status = c05_py2coq.translate_source("\x00")      # all placeholders
+        status = {k: r for k in status}
+    with vlib.BuildLock():
+        os.makedirs(os.path.dirname(GEN), exist_ok=True)
+        old = open(GEN).read() if os.path.exists(GEN) else None
+        if old != txt:
+            with open(GEN, "w") as f:
+                f.write(txt)
+    done = [k for k, v in status.items() if v is None]
+    refused = ["%s (%s)" % (k, v) for k, v in status.items() if v is not None]
+    msg = "regenerated: %s" % (", ".join(done) or "nothing")
+    if refused:
+        msg += "; translator refused: " + "; ".join(refused)
+    return bool(done), msg, status
+
+
+def tie_T(run):
+    """Regenerate, build the equivalence and the restated theorems.  Returns the name of the Corr check to evaluate:
+    "check_both" when the regenerated definitions were built and are (provably) the model, "check" otherwise."""
+    ok, msg, status = regen()
+    refused = {k: v for k, v in status.items() if v is not None}
+    done = [k for k, v in status.items() if v is None]
+    run.extra_cov["regenerated_functions"] = done
+    run.extra_cov["translator_refused"] = {k: str(v) for k, v in refused.items()}
+    for k, v in refused.items():
+        run.notes.append("tie: correspondence-only (translator refused %s at line %s in %s: %s)" % (v.node, v.line, k, v.why))
+    if not ok:
+        run.extra_cov["tie"] = "correspondence-only (%s)" % msg
+        return "check"
+    if run.build_props(props="Props/C05_gen.v"):
+        run.notes.append("tie: regenerated (%s)" % ", ".join(done))
+        run.extra_cov["tie"] = ("translation (regenerated definitions proved to compute the hand model: %s) + correspondence%s"
+                                % (", ".join(done), "; correspondence-only for " + ", ".join(sorted(refused)) if refused else ""))
+        run.trusted.append("translator harness/c05_py2coq.py and its signature table (source text of deap/tools/emo.py -> coq/Gen/C05_gen.v) "
+                           "with the statement vocabulary coq/Model/C05_GenRt.v; the regenerated definitions are proved to refine the "
+                           "hand model (Proofs/C05_gen_equiv.v) and are evaluated against the implementation on every run")
+        return "check_both"
+    run.extra_cov["tie"] = "translator succeeded but the regenerated definitions are no longer (provably) the model"
+    try:        # keep the offending text for the replay
+        with open(os.path.join(run.rundir, "C05_gen.v.broken"), "w") as f:
+            f.write(open(GEN).read())
+    except OSError:
+        pass
+    return "check"
 
 
 # ----------------------------------------------------------------------------
@@ -139,22 +197,21 @@ def cql(l):
     return clist([cq(x) for x in l])
 
 
-def correspond_robust(run, terms, cases, shard):
+def correspond_robust(run, terms, cases, shard, check="check", requires=(), prefix="all"):
     """run.correspond in chunks of NCPU shards; a chunk in which a coqc process died without any output
     (killed by the kernel's OOM killer / timeout on an overloaded machine) is evaluated again, at most twice.
     A chunk counts only if a complete coqc evaluation of all its shards succeeded; Coq errors with a message
     and genuine disagreements are never retried away."""
     import time
-    import vlib
     per = shard * max(1, vlib.NCPU)
     retried = 0
     for c, start in enumerate(range(0, len(terms), per)):
         t, cs = terms[start:start + per], cases[start:start + per]
         for attempt in range(3):
-            g = "all_%d" % c if attempt == 0 else "all_%d_retry%d" % (c, attempt)
+            g = "%s_%d" % (prefix, c) if attempt == 0 else "%s_%d_retry%d" % (prefix, c, attempt)
             before = len(run.disagreements)
             traces_before = run.traces
-            run.correspond(g, "C05", t, cs, shard=shard)
+            run.correspond(g, "C05", t, cs, shard=shard, check=check, requires=list(requires))
             new = run.disagreements[before:]
             killed = [d for d in new if d.get("coq_error") is not None and not (d["coq_error"].get("log") or "").strip()]
             if not killed or attempt == 2:
@@ -192,7 +249,29 @@ def main(run):
     ]
     run.assumptions += ["fitness values finite (no NaN/inf), all individuals have the same number of objectives",
                         "individuals are distinct objects with distinct fitness objects", "k >= 0, population non-empty"]
-    run.build_props()
+    # ---- tie (T): regenerate Gen/C05_gen.v from the working tree, re-prove `regenerated refines model` and the theorems.
+    # The two builds (coqc: ~20 s each, mostly Print Assumptions) run while the cases are generated; both are joined
+    # before the correspondence.
+    import threading
+    tie_box = {}
+
+    def props_thread():
+        try:
+            run.build_props()
+        except BaseException as e:  # noqa  (re-raised in the main thread)
+            tie_box["error"] = e
+
+    def tie_thread():
+        try:
+            tie_box["check"] = tie_T(run)
+        except BaseException as e:  # noqa  (re-raised in the main thread)
+            tie_box["error"] = e
+    props_th = threading.Thread(target=props_thread, name="C05-props")
+    props_th.start()
+    tie_th = threading.Thread(target=tie_thread, name="C05-tie-T")
+    tie_th.start()
+    import time as _t
+    t_gen0 = _t.time()
     rng = run.rng
 
     import array
@@ -277,9 +356,12 @@ def main(run):
              "log_calls": 0, "k_gt_n": 0, "with_duplicates": 0, "with_stale_crowding_dist": 0, "oracle_only_calls": 0,
              "routes": {}, "vtypes": {}, "containers": {}}
 
-    def add(term, case, nontrivial=True):
+    with_gen = []       # per term: also evaluated through the regenerated definitions (tie (T))
+
+    def add(term, case, nontrivial=True, gen=True):
         terms.append(term)
         cases.append(case)
+        with_gen.append(gen)
 
     toolboxes = {}
 
@@ -434,15 +516,18 @@ def main(run):
         fu = clist([cnatl(f) for f in fronts_uid])
         stale = any(x is not None for x in pre_cd)
         popf = clist(["(%s, %s)" % (czl(img[j]), cfl(obs_vals[j])) for j in range(n)])
+        # every selNSGA2 call goes through the hand model; every second one (float instance) and every call on objects
+        # that carry attributes from earlier calls (both instances) also through the regenerated definitions
+        use_gen = stale or stats["sel_calls"] % 2 == 0
         add("CSelF %s %s %s %s %s %s %s" % (cbool(nd == "standard"), cnat(k), popf, fu, cnatl(sel_uid),
                                             clist([copt(x, cfloat) for x in pre_cd]) if stale else "[]",
-                                            clist([copt(x, cfloat) for x in cd])), case)
+                                            clist([copt(x, cfloat) for x in cd])), case, gen=use_gen)
         exact = all(float_exact_ok([obs_vals[j] for j in f if j < n]) for f in fronts_uid)
         stats["exact_q"] += exact
         popq = clist(["(%s, %s)" % (czl(img[j]), cql(obs_vals[j])) for j in range(n)])
         add("CSelQ %s %s %s %s %s %s %s %s" % (cbool(exact), cbool(nd == "standard"), cnat(k), popq, fu, cnatl(sel_uid),
                                             clist([copt(None if x is None else float(x), cqinf) for x in pre_cd]) if stale else "[]",
-                                            clist([copt(x, cqinf) for x in cd])), case)
+                                            clist([copt(x, cqinf) for x in cd])), case, gen=use_gen and stale)
         return res
 
     # ------------------------------------------------------------------------
@@ -522,7 +607,6 @@ def main(run):
 
     # ------------------------------------------------------------------------
     # corpus: past misses, run first (every k, both back-ends)
-    import vlib
     for path in sorted(glob.glob(os.path.join(vlib.VERIF, "corpus", "C05*.json"))):
         for c in json.load(open(path)).get("cases", []):
             for k in range(0, len(c["values"]) + 3):
@@ -753,19 +837,82 @@ def main(run):
         crowd_case(rand_weights(nobj), vals)
 
     run.extra_cov["c05_stats"] = stats
-    correspond_robust(run, terms, cases, shard=run.scale(150, 400))
+    timing = {"generation_s": round(_t.time() - t_gen0, 1)}
+    run.extra_cov["c05_timing"] = timing
+    props_th.join()
+    tie_th.join()
+    timing["tie_join_wait_s"] = round(_t.time() - t_gen0 - timing["generation_s"], 1)
+    if "error" in tie_box:
+        raise tie_box["error"]
+    gen_check = tie_box["check"]
+    # the model and (when they are provably the model) the regenerated definitions are evaluated on every case
+    reqs = ["From DV Require Import Gen.C05_gen."] if gen_check != "check" else []
+    n_dis = len(run.disagreements)
+    import time as _time
+    t_corr = _time.time()
+    # shards of similar cost: the generators emit families of very different size one after the other
+    order = list(range(len(terms)))
+    rng.shuffle(order)
+    terms, cases, with_gen = [terms[i] for i in order], [cases[i] for i in order], [with_gen[i] for i in order]
+    if gen_check == "check_both":
+        # one pass; per term: the hand model, or the hand model and the regenerated definitions
+        run.extra_cov["terms_also_through_regenerated_definitions"] = sum(1 for g in with_gen if g)
+        correspond_robust(run, ["(%s, %s)" % (cbool(g), x) for g, x in zip(with_gen, terms)], cases, shard=run.scale(380, 400),
+                          check="(fun p : bool * case => if fst p then check_both (snd p) else check (snd p))", requires=reqs)
+    else:
+        correspond_robust(run, terms, cases, shard=run.scale(380, 400))
+    timing["correspondence_s"] = round(_time.time() - t_corr, 1)
+    new_dis = [d for d in run.disagreements[n_dis:] if d.get("index") is not None]
+    if gen_check == "check_both" and new_dis:
+        # which of the two disagrees with the implementation?
+        traces = run.traces
+        try:
+            sub_t = [d["term"] for d in new_dis if len(d["term"]) < 3990][:200]
+            bad_model = run.correspond("diagnosis_model", "C05", sub_t, None, check="(fun p : bool * case => check (snd p))")
+            bad_gen = run.correspond("diagnosis_regenerated", "C05", sub_t, None, check="(fun p : bool * case => check_gen (snd p))", requires=reqs)
+            run.notes.append("diagnosis: of %d disagreeing cases the hand model disagrees on %d, the regenerated definitions on %d"
+                             % (len(sub_t), len(bad_model), len(bad_gen)))
+        except Exception as e:  # noqa
+            run.notes.append("diagnosis step failed: %r" % (e,))
+        run.traces = traces
+        for g in ("diagnosis_model", "diagnosis_regenerated"):
+            run.corr_groups.pop(g, None)
+        run.disagreements = [d for d in run.disagreements if d.get("group") not in ("diagnosis_model", "diagnosis_regenerated")]
+    elif gen_check == "check" and run.extra_cov.get("regenerated_functions") and "no longer" in str(run.extra_cov.get("tie")):
+        # translated but not provably the model: do the regenerated definitions at least agree with the implementation?
+        traces = run.traces
+        try:
+            rc, out = vlib.coqc_file(GEN, cwd=vlib.COQ)
+            if rc == 0:
+                bad_gen = run.correspond("diagnosis_regenerated", "C05", terms, cases, check="check_gen",
+                                         requires=["From DV Require Import Gen.C05_gen."], shard=run.scale(150, 400))
+                g = run.corr_groups.pop("diagnosis_regenerated", {})
+                run.disagreements = [d for d in run.disagreements if d.get("group") != "diagnosis_regenerated"]
+                run.notes.append("diagnosis: the regenerated definitions (not provably the model) disagree with the "
+                                 "implementation on %d of %d cases (errors: %s)" % (len(bad_gen), len(terms), g.get("errors")))
+            else:
+                run.notes.append("diagnosis: the regenerated definitions do not compile: " + out[-400:])
+        except Exception as e:  # noqa
+            run.notes.append("diagnosis step failed: %r" % (e,))
+        run.traces = traces
 
     # only runs when an obligation or the correspondence broke and the oracle has no failing input yet:
     # more oracle-only random calls (the terms they append are not evaluated)
     def search(run_):
         import time
         t_end = time.time() + run_.scale(45, 300)
+        rounds = 0
         while time.time() < t_end and not run_.oracle_viol:
-            n = rng.randint(1, 30)
-            nobj = rng.choice([2, 3, 4])
+            rounds += 1
+            # a regenerated definition that is no longer the model may differ from it only beyond the sizes the regular
+            # generators reach (a threshold on the number of objectives, the population size, k): every other round is wide
+            wide = rounds % 2 == 0
+            n = rng.randint(31, 70) if wide and rng.random() < 0.5 else rng.randint(1, 30)
+            nobj = rng.randint(5, 9) if wide else rng.choice([2, 3, 4])
             vals = rand_values(n, nobj)
             w = rand_weights(nobj)
-            for k in range(0, n + 3):
+            ks = range(0, n + 3) if not wide else sorted({0, 1, n // 3, n // 2, n - 1, n, n + 2, rng.randint(0, n)})
+            for k in ks:
                 for nd in ("standard", "log"):
                     sel_case(w, vals, k, nd)
             crowd_case(w, vals[:rng.randint(0, n)])
